@@ -362,3 +362,11 @@ Definition go_heap_put {S R} (h : go_theap) (p : Z) (k : N) (a : Z) (c : go_thea
   go_index h p (fun nd => go_set h p (tn_put k a nd) c).
 Definition go_heap_del {S R} (h : go_theap) (p : Z) (k : N) (c : go_theap -> res S R) : res S R :=
   go_index h p (fun nd => go_set h p (tn_del k nd) c).
+
+(* strings.HasPrefix *)
+Fixpoint go_has_prefix (s p : list N) : bool :=
+  match p, s with
+  | [], _ => true
+  | _ :: _, [] => false
+  | c :: p', d :: s' => N.eqb c d && go_has_prefix s' p'
+  end.
